@@ -71,29 +71,7 @@ def check(prog, run):
                        "`%s`: str.%s() is true for non-ASCII characters (e.g. ARABIC-INDIC DIGIT ONE U+0661), which the GraphQL "
                        "lexical grammar does not allow there" % (" ".join(ast.unparse(n).split()), meth))
 
-    # ---- L4 the cursor only moves over characters that were classified
-    r = run.rule("L4", "Lexer methods never move the cursor by a bulk search over the source (str.find/index/rfind/rindex/split/"
-                       "splitlines/partition/rpartition/strip..., re.*): every character consumed is read and classified "
-                       "individually, so characters the grammar forbids cannot be skipped and every line terminator the grammar "
-                       "names ends a comment", 12)
-    BULK = {"find", "index", "rfind", "rindex", "split", "rsplit", "splitlines", "partition", "rpartition", "strip", "lstrip", "rstrip",
-            "startswith", "endswith", "count", "replace", "translate"}
-    seen = set()
-    for name, m in lexer.methods.items():
-        if id(m) in seen:
-            continue
-        seen.add(id(m))
-        r.instance(m.qualname)
-        for n in own_nodes(m.node):
-            if isinstance(n, ast.Call) and isinstance(n.func, ast.Attribute):
-                recv = ast.unparse(n.func.value)
-                if n.func.attr in BULK and ("_source" in recv or recv == "source") and n.func.attr not in ("startswith", "endswith"):
-                    run.report(r, "%s:%s:bulk-scan(%s)" % (LEXER, m.qualname, " ".join(ast.unparse(n).split())), m.where(n),
-                               "`%s` moves over source characters without classifying them: forbidden control characters inside the "
-                               "skipped region are accepted and a lone CR no longer terminates it" % " ".join(ast.unparse(n).split()))
-                if isinstance(n.func.value, ast.Name) and n.func.value.id == "re":
-                    run.report(r, "%s:%s:regex-scan(%s)" % (LEXER, m.qualname, " ".join(ast.unparse(n).split())), m.where(n),
-                               "a regular expression scans the source in the lexer: its character classes are not checked against the lexical grammar")
+    check_no_bulk_scan(prog, run, "L4")
 
     # ---- K1 keyword comparisons guarded by a Name class test
     r = run.rule("K1", "every comparison of a token's .value with keyword text in the parser is guarded on its path by a "
@@ -417,3 +395,31 @@ def check_text_position_pairing(prog, run, rule_id):
                                "agree (the position can lie beyond the end of the changed text)" % (f.qualname, txt[:80], c.func.id))
     if not n:
         raise AnalysisError("C01.%s: no call of index_to_loc / highlight_location found" % rule_id)
+
+
+
+def check_no_bulk_scan(prog, run, rule_id="L4"):
+    lexer = prog.get_class(LEXER, "Lexer")
+    # ---- L4 the cursor only moves over characters that were classified
+    r = run.rule(rule_id, "Lexer methods never move the cursor by a bulk search over the source (str.find/index/rfind/rindex/split/"
+                       "splitlines/partition/rpartition/strip..., re.*): every character consumed is read and classified "
+                       "individually, so characters the grammar forbids cannot be skipped and every line terminator the grammar "
+                       "names ends a comment", 12)
+    BULK = {"find", "index", "rfind", "rindex", "split", "rsplit", "splitlines", "partition", "rpartition", "strip", "lstrip", "rstrip",
+            "startswith", "endswith", "count", "replace", "translate"}
+    seen = set()
+    for name, m in lexer.methods.items():
+        if id(m) in seen:
+            continue
+        seen.add(id(m))
+        r.instance(m.qualname)
+        for n in own_nodes(m.node):
+            if isinstance(n, ast.Call) and isinstance(n.func, ast.Attribute):
+                recv = ast.unparse(n.func.value)
+                if n.func.attr in BULK and ("_source" in recv or recv == "source") and n.func.attr not in ("startswith", "endswith"):
+                    run.report(r, "%s:%s:bulk-scan(%s)" % (LEXER, m.qualname, " ".join(ast.unparse(n).split())), m.where(n),
+                               "`%s` moves over source characters without classifying them: forbidden control characters inside the "
+                               "skipped region are accepted and a lone CR no longer terminates it" % " ".join(ast.unparse(n).split()))
+                if isinstance(n.func.value, ast.Name) and n.func.value.id == "re":
+                    run.report(r, "%s:%s:regex-scan(%s)" % (LEXER, m.qualname, " ".join(ast.unparse(n).split())), m.where(n),
+                               "a regular expression scans the source in the lexer: its character classes are not checked against the lexical grammar")
